@@ -17,13 +17,13 @@ pub enum SEv {
 }
 
 #[derive(Debug, Clone, Copy, PartialEq)]
-pub struct Rec { pub ev: SEv, pub newtype_depth: u8, pub name_len: usize, pub name_first: u8, pub name_last: u8, pub some_depth: u8 }
+pub struct Rec { pub ev: SEv, pub newtype_depth: u8, pub name_len: usize, pub name_first: u8, pub name_last: u8, pub some_depth: u8, pub seq_kind: u8 }
 
-fn rec(ev: SEv) -> Result<Rec, E> { Ok(Rec { ev, newtype_depth: 0, name_len: 0, name_first: 0, name_last: 0, some_depth: 0 }) }
+fn rec(ev: SEv) -> Result<Rec, E> { Ok(Rec { ev, newtype_depth: 0, name_len: 0, name_first: 0, name_last: 0, some_depth: 0, seq_kind: 0 }) }
 
 pub struct RecSer;
 
-pub struct TupRec { a: u64, b: u64, n: u8 }
+pub struct TupRec { a: u64, b: u64, n: u8, kind: u8 }   // kind: 1 = tuple (fixed size), 2 = seq
 fn as_u64(r: Rec) -> u64 {
     match r.ev { SEv::U8(v) => v as u64, SEv::U16(v) => v as u64, SEv::U32(v) => v as u64, SEv::U64(v) => v, SEv::I8(v) => v as u64, SEv::I16(v) => v as u64,
                  SEv::I32(v) => v as u64, SEv::I64(v) => v as u64, SEv::Bool(v) => v as u64, _ => 0xdead }
@@ -35,7 +35,7 @@ impl ser::SerializeTuple for TupRec {
         if self.n == 0 { self.a = as_u64(r); } else if self.n == 1 { self.b = as_u64(r); }
         self.n += 1; Ok(())
     }
-    fn end(self) -> Result<Rec, E> { rec(SEv::Tup(self.a, self.b, self.n)) }
+    fn end(self) -> Result<Rec, E> { let k = self.kind; let mut r = rec(SEv::Tup(self.a, self.b, self.n))?; r.seq_kind = k; Ok(r) }
 }
 impl ser::SerializeSeq for TupRec {
     type Ok = Rec; type Error = E;
@@ -93,8 +93,8 @@ impl Serializer for RecSer {
         Ok(r)
     }
     fn serialize_newtype_variant<T: ?Sized + Serialize>(self, _n: &'static str, _i: u32, _v: &'static str, _value: &T) -> Result<Rec, E> { Err(E) }
-    fn serialize_seq(self, _len: Option<usize>) -> Result<TupRec, E> { Ok(TupRec { a: 0, b: 0, n: 0 }) }
-    fn serialize_tuple(self, _len: usize) -> Result<TupRec, E> { Ok(TupRec { a: 0, b: 0, n: 0 }) }
+    fn serialize_seq(self, _len: Option<usize>) -> Result<TupRec, E> { Ok(TupRec { a: 0, b: 0, n: 0, kind: 2 }) }
+    fn serialize_tuple(self, _len: usize) -> Result<TupRec, E> { Ok(TupRec { a: 0, b: 0, n: 0, kind: 1 }) }
     fn serialize_tuple_struct(self, _n: &'static str, _len: usize) -> Result<Impossible<Rec, E>, E> { Err(E) }
     fn serialize_tuple_variant(self, _n: &'static str, _i: u32, _v: &'static str, _len: usize) -> Result<Impossible<Rec, E>, E> { Err(E) }
     fn serialize_map(self, _len: Option<usize>) -> Result<Impossible<Rec, E>, E> { Err(E) }
